@@ -353,6 +353,10 @@ class Gen:
             if src[1][0] == "map" and what == "entries" and r.random() < 0.5:
                 names = [self.fresh("i"), self.fresh("i")]
             body = self.loop_body(depth, names if len(names) == 1 or src[1][0] != "str" else names[:1], in_fn, acc)
+            if r.random() < 0.2:
+                # the loop variable has the name of a variable of the same scope: that one has its value again afterwards
+                pre = [("def", n, I(700 + j)) for j, n in enumerate(names)]
+                return ("seq", pre + [("for", names, what, src, ("seq", body)), LOG("after-loop." + names[0], ("list", [V(n) for n in names]))])
             return ("for", names, what, src, ("seq", body))
         # while with a logged condition and a counter
         cvar = self.fresh("w")
@@ -651,6 +655,23 @@ def t_defaults(g):
             ("deffn", "caller", [], ("seq", [("def", "k", I(1000)), ("def", "p", I(77)), CALL("f", I(2))])), LOG("d5", CALL("caller"))]
 
 
+def t_default_effects(g):
+    """a default is evaluated only for a parameter no argument was bound to - its effects do not happen, and it cannot
+    fail, when the argument was passed (positionally, by name, through a list or a map spread)"""
+    f = ("deffn", "f", [("a", None, False), ("b", LOG("default-b", I(7)), False), ("c", ("index", ("lit", ("list", ())), I(3)), False)],
+         ("list", [V("a"), V("b"), V("c")]))
+    h = ("deffn", "h", [("p", LOG("default-p", I(1)), False), ("q", LOG("default-q", ("bin", "+", V("p"), I(1))), False)], ("list", [V("p"), V("q")]))
+    return [f, h,
+            LOG("de1", CALL("f", I(1), I(2), I(3))),
+            ("block", [LOG("de2", CALL("f", I(1), I(2)))], [(None, LOG("de2.err", S("default of c failed")))], []),
+            LOG("de3", CALL("f", I(1), ("named", "c", I(9)))),
+            LOG("de4", CALL("f", I(1), ("spread", ("list", [I(5), I(6)])))),
+            LOG("de5", CALL("f", ("spread", ("map", [(S("a"), I(1)), (S("b"), I(2)), (S("c"), I(3))])))),
+            LOG("de6", CALL("f", ("named", "c", I(0)), ("named", "b", NULL), ("named", "a", I(4)))),
+            LOG("de7", CALL("h")), LOG("de8", CALL("h", I(5))), LOG("de9", CALL("h", I(5), I(6))), LOG("de10", CALL("h", ("named", "q", I(0)))),
+            LOG("de11", ("pipe", I(8), V("h"), [("pos", I(9))]))]
+
+
 def t_binding(g):
     f = ("deffn", "f", [("a", None, False), ("b", I(20), False), ("c", I(30), False), ("rest...", None, True)],
          ("list", [V("a"), V("b"), V("c"), V("rest...")]))
@@ -818,4 +839,4 @@ def t_higher_order(g):
             LOG("h7", ("comp", "list", [CALL("apply1", ("fn", [("e", None, False)], ("bin", "+", V("e"), V("k"))), V("i"))], [("i", None, ("lit", ("list", (("int", 1), ("int", 2)))))], "single", None))]
 
 
-SCOPE_TEMPLATES = [t_destructuring, t_higher_order, t_counter, t_lexical_vs_dynamic, t_assign_nearest, t_defaults, t_binding, t_methods, t_fresh_frames, t_def_in_block, t_mutable_defaults, t_receiver_once, t_pipe_into_member, t_def_in_loop]
+SCOPE_TEMPLATES = [t_default_effects, t_destructuring, t_higher_order, t_counter, t_lexical_vs_dynamic, t_assign_nearest, t_defaults, t_binding, t_methods, t_fresh_frames, t_def_in_block, t_mutable_defaults, t_receiver_once, t_pipe_into_member, t_def_in_loop]
